@@ -33,6 +33,10 @@ def check(run):
     run.attempt(unknown, run, p)
     run.attempt(samepath, run, p)
     run.attempt(nomutate, run, p)
+    from .common import shared_rule
+    from .c02 import keeps_constraints as _keeps, kinds_and_methods as _km2
+    shared_rule(run, lambda *a: _keeps(*a, rid='C09-KEEPS'), (run, p, _km2(p)), 'C09-KEEPS', 'C09-KEEPS',
+                ' (a loaded constraint set that has been verified with still writes the text it was loaded from)')
     run.attempt(entry, run, p)
     run.attempt(preset, run, p)
     run.attempt(sameprep, run, p)
